@@ -108,8 +108,11 @@ var alsoViolates = map[string][][2]string{
 	"C13/snapshot-later-not-restored": {{"C01", "lost-by-seek"}},
 	"C13/restore-times":               {{"C14", "retention-not-restarted"}},
 	"C13/seek-revived-expired":        {{"C14", "revived-after-retention"}},   // deliverable for exactly its retention
+	"C14/expired-early":               {{"C15", "live-subscription-expired"}}, // the expiry job removed a subscription that is in use
 	"C14/ttl-update-clock":            {{"C15", "live-subscription-expired"}}, // the expiry job then removes a live subscription
 	"C13/row-lost":                    {{"C01", "lost"}},
+	"C15/pruned-outstanding":          {{"C01", "lost"}},            // an unacknowledged, retained message is gone
+	"C15/prune-unblocked":             {{"C05", "prune-unblocked"}}, // the successor is released while its predecessor was never acknowledged, expired or dead-lettered
 	"C06/forward-missing":             {{"C01", "forward-missing"}},
 	"C06/forward-filter":              {{"C02", "forward-filter"}, {"C07", "forward-filter"}},
 	"C06/wrong-target":                {{"C02", "wrong-target"}},
